@@ -3849,7 +3849,7 @@ bool CanettiGennaroJareckiKrawczykRabinDSS::Sign
 			}
 			mpz_mul(lambda_j[dkg2idx[*jt]], rhs, lhs);
 			mpz_mod(lambda_j[dkg2idx[*jt]], lambda_j[dkg2idx[*jt]], q);
-			if (std::find(complaints.begin(), complaints.end(), dkg2idx[*jt]) == complaints.end())
+			if (std::find(complaints.begin(), complaints.end(), *jt) == complaints.end())
 			{
 				mpz_mul(rhs, lambda_j[dkg2idx[*jt]], v_i_vss[dkg2idx[*jt]]->sigma_i);
 				mpz_mod(rhs, rhs, q);
